@@ -248,6 +248,25 @@ package nsqlookupd
 //@   ensures[other-keys] gk != k ==> (atunlock(hasKey(r, gk)) <==> atlock(hasKey(r, gk)))
 //@   ensures[others] gk != k ==> (atunlock(hasProd(r, gk, gid)) <==> atlock(hasProd(r, gk, gid)))
 
+// (with fixes/0001: the emptiness test and the removal happen under one lock)
+//@ func (r *RegistrationDB) RemoveRegistrationIfEmpty(k Registration) bool
+//@   props C14 C15
+//@   modifies r.registrationMap, mapstore(map[Registration]ProducerMap), mapstore(ProducerMap)
+//@   ghostparam gk Registration
+//@   ghostparam gid string
+//@   requires r != nil
+//@   ensures[removed-iff-empty] result == atlock(!hasKey(r, k) || len(r.registrationMap[k]) == 0)
+//@   ensures[gone] result ==> !atunlock(hasKey(r, k))
+//@   ensures[non-empty-kept] !result ==> (atunlock(hasKey(r, gk)) <==> atlock(hasKey(r, gk))) && (atunlock(hasProd(r, gk, gid)) <==> atlock(hasProd(r, gk, gid)))
+//@   ensures[other-keys] gk != k ==> (atunlock(hasKey(r, gk)) <==> atlock(hasKey(r, gk)))
+//@   ensures[others] gk != k ==> (atunlock(hasProd(r, gk, gid)) <==> atlock(hasProd(r, gk, gid)))
+//@   onreturn r3cRemAttempts := r3cRemAttempts + 1
+//@   onreturn r3cLastAttempt := k
+//@   onreturn mRemCalls := mRemCalls + (result ? 1 : 0)
+//@   onreturn mLastRem := result ? k : mLastRem
+//@   onreturn r3cRemovedSet := result ? setadd(r3cRemovedSet, k) : r3cRemovedSet
+//@   onreturn r3cLastDropped := atlock(hasKey(r, k) ? len(r.registrationMap[k]) : 0)
+
 //@ func (k Registration) IsMatch(category string, key string, subkey string) bool
 //@   props C14
 //@   ensures result == (category == k.Category && (key == "*" || k.Key == key) && (subkey == "*" || k.SubKey == subkey))
